@@ -226,8 +226,9 @@ def coq_nn(ll):
 
 
 def render_case(c, r):
-    return "{| nc_ops := %s; nc_tokio := %s; nc_smol := %s |}" % (
-        coq_list([coq_op(o) for o in c["ops"]]), coq_nn(r["tokio"]), coq_nn(r["smol"]))
+    return "{| nc_ops := %s; nc_tokio := %s; nc_smol := %s; nc_tokio_w := %s; nc_smol_w := %s |}" % (
+        coq_list([coq_op(o) for o in c["ops"]]), coq_nn(r["tokio"]), coq_nn(r["smol"]),
+        coq_nn(r.get("tokio_w", [])), coq_nn(r.get("smol_w", [])))
 
 
 WORDS = {0: "done", 3: "Pending", 4: "End", 5: "gone", 6: "PANIC", 8: "fuel"}
@@ -255,6 +256,16 @@ def describe(code):
         parts.append("zlink-tokio's stream violates the property")
     if code & 32:
         parts.append("zlink-smol's stream violates the property")
+    if code & 512:
+        parts.append("zlink-tokio does not wake a subscriber it owes a wake-up (its poll returned Pending, then "
+                     "something to receive arrived): an awaited stream would hang")
+    if code & 1024:
+        parts.append("zlink-smol does not wake a subscriber it owes a wake-up (its poll returned Pending, then "
+                     "something to receive arrived): an awaited stream would hang")
+    if code & 128:
+        parts.append("zlink-tokio's wake-ups differ from its model")
+    if code & 256:
+        parts.append("zlink-smol's wake-ups differ from its model")
     if code & 4:
         parts.append("zlink-tokio differs from its model")
     if code & 8:
@@ -304,7 +315,7 @@ def shrink(ck, c, code_mask):
 
 def main():
     ck = Check(PID)
-    ck.prove(["Notified/NotifiedExec.v", "Notified/NotifiedProofs.v", "Notified/NotifiedHandles.v"], "props/C20.v",
+    ck.prove(["Notified/NotifiedExec.v", "Notified/NotifiedWake.v", "Notified/NotifiedProofs.v", "Notified/NotifiedHandles.v"], "props/C20.v",
              extra_audit=["Notified/NotifiedExec.v"])
 
     exhaustive = {}
@@ -350,12 +361,16 @@ def main():
         term = render_case(cs, rs)
         shown = ck.coq_show(HEADER, "(check (%s), show (%s))" % (term, term))
         obj = {"case": cs, "original_case": c, "code": code, "meaning": describe(code),
-               "impl": {"tokio": [word(x) for x in rs["tokio"]], "smol": [word(x) for x in rs["smol"]]},
+               "impl": {"tokio": [word(x) for x in rs["tokio"]], "smol": [word(x) for x in rs["smol"]],
+                        "tokio_wakes_per_op": rs.get("tokio_w"), "smol_wakes_per_op": rs.get("smol_w")},
                "impl_raw": rs, "check_and_models(tokio,smol,reference)": shown}
         opsdesc = " ".join(coq_op(o).replace(" ", "") for o in small)
         if code & 2:
-            ck.violation("%s on [%s]: tokio=%s smol=%s" % (
-                describe(code), opsdesc, [word(x) for x in rs["tokio"]], [word(x) for x in rs["smol"]]),
+            wk = ""
+            if code & (128 | 256 | 512 | 1024):
+                wk = " wakes(tokio)=%s wakes(smol)=%s" % (rs.get("tokio_w"), rs.get("smol_w"))
+            ck.violation("%s on [%s]: tokio=%s smol=%s%s" % (
+                describe(code), opsdesc, [word(x) for x in rs["tokio"]], [word(x) for x in rs["smol"]], wk),
                 obj, tag="c%d" % c["id"])
         else:
             obj["correspondence"] = "Notified/Notified.v run vs zlink_{tokio,smol}::notified"
@@ -381,6 +396,8 @@ def main():
         "traces_validated_against_impl": len(items), "crates": ["zlink-tokio", "zlink-smol"],
         "case_classes": hist, "op_kinds": kinds, "op_list_lengths": {str(k): v for k, v in sorted(lens.items())},
         "cases_with_a_lagging_subscriber": lagged, "exhaustive_families": exhaustive,
+        "wakeups_observed": sum(len(w) for c, r in items for k in ("tokio_w", "smol_w") for w in r.get(k, [])),
+        "cases_with_a_wakeup_owed": sum(1 for c, r in items if any(r.get("tokio_w", []))),
     })
     for c in cases[:2] + cases[len(cases) // 2: len(cases) // 2 + 2] + cases[-2:]:
         ck.samples.append({"ops": " ".join(coq_op(o).replace(" ", "") for o in c["ops"]), "tag": c["tag"]})
@@ -388,8 +405,10 @@ def main():
         "the models of tokio::sync::broadcast(1)/BroadcastStream/oneshot and async-broadcast/async-channel are "
         "hand-written (Notified/Notified.v) from the crate versions in Cargo.lock; their tie to the code is the "
         "per-operation correspondence with the real crates on the generated operation lists",
-        "one thread, one operation at a time, polls with a no-op waker and no runtime: wake-ups, locks and "
-        "concurrent senders are outside the model; position counters are unbounded (no 2^64 wrap)",
+        "one thread, one operation at a time, no runtime: every stream is polled with its own counting waker "
+        "and the wake-ups each operation causes are compared with the models and with the obligation "
+        "(Pending => registered; what makes a registered stream ready wakes it); locks and concurrent "
+        "senders are outside the model; position counters are unbounded (no 2^64 wrap)",
         "the one-shot stream is not dropped before the notifier in the scenarios; State handles are cloned and "
         "dropped freely (each clone is a handle to the same channel with its own value copy)",
     ]
